@@ -152,13 +152,23 @@ def const_input(ctx, b, blk, kind):
             return True, e
         return (e.startswith('"') or "DEFAULT_STRUCT_NAME" in e or bool(re.match(r"^[A-Za-z_:0-9]+$", e)) and e.isupper() is False and "::" in e), e
     if kind == "parse-quote":
-        # the token stream must be built from constant pushes only: no ToTokens::to_tokens call in the fn
+        # the token stream handed to parse() must be built from constant pushes only
+        from vlib import tpl
+        root = tpl.value_root(b, t["args"][0])
+        if root is None:
+            return False, "token stream operand is not a plain local"
+        n = 0
         for _, t2 in b.calls():
             ci = mir.callee_info(t2)
-            n = (ci.get("fn") or "") if ci else ""
-            if n.endswith("ToTokens::to_tokens") or (ci and ci.get("method") == "to_tokens"):
-                return False, "interpolation " + (ci.get("resolved_with_args") or n)
-        return True, "constant tokens"
+            if not ci:
+                continue
+            name = ci.get("resolved") or ci["fn"]
+            for a in t2["args"]:
+                if a["k"] in ("copy", "move") and b.local_ty(a["p"]["local"]).startswith("&mut ") and tpl.ref_root(b, a) == root:
+                    n += 1
+                    if not name.startswith("quote::__private::push_") and not name.startswith("quote::__private::parse"):
+                        return False, "non-constant token source " + (ci.get("resolved_with_args") or name)
+        return n > 0, "%d constant pushes" % n
     return False, "?"
 
 
@@ -210,9 +220,11 @@ def exhaustive_wildcards(ctx, rule, bodies):
             kind = scan.reaches_panic(b, other)
             if kind != "panic":
                 continue
+            row = PANIC_TABLE.get((b.key, "panic"), {})
+            if row and not row.get("exhaustive"):
+                continue  # guarded by a who-calls rule or already reported by the census
             n += 1
             missing = [v for v in allv if v not in m]
-            row = PANIC_TABLE.get((b.key, "panic"), {})
             ev = "wildcard-panic %s" % adt
             if missing and row.get("finding"):
                 ctx.ob(rule, b.key, ev, False, "%s: variants %s of %s reach the wildcard panic" % (row["finding"], missing, adt))
